@@ -58,9 +58,25 @@ func VerifC14Reissue() {
 			vrt_Assert(m.Command != 0x8003, "re-request issued while packets were still arriving without a 5 s gap being established")
 		}
 	}
+	// optionally a second transfer (another message ID, 2 packets, packet 2 missing) is pending as well
+	two := vrt_Choose("secondTransfer", 2) == 1
+	var gs []*vFrame
+	if two {
+		gs = c05Transfer("u", 0x0704, 2, 0)
+		vrt_Assume(gs[0].serial != fs[0].serial) // the harness tells the two re-requests apart by the serial they name
+		_, err := r.read(gs[0].bytes())
+		vrt_Assume(!vNow().After(start.Add(4 * time.Second)))
+		vrt_Assert(err == nil, "valid packet reported as an error")
+	}
 	rec, ok := r.pack.timeoutRecord[0x0801]
 	vrt_Assert(ok, "pending transfer not recorded")
 	last := rec.updateTime
+	lastB := last
+	if two {
+		recB, okB := r.pack.timeoutRecord[0x0704]
+		vrt_Assert(okB, "second pending transfer not recorded")
+		lastB = recB.updateTime
+	}
 	created := rec.createTime
 	hb := vGenFrame("hb", 0x0002, false, 0, 0)
 	vNoSpecialChecksum(hb)
@@ -75,15 +91,41 @@ func VerifC14Reissue() {
 			reqs = append(reqs, m)
 		}
 	}
-	if !t1.After(last.Add(5 * time.Second)) {
+	if !t1.After(last.Add(5*time.Second)) && !t1.After(lastB.Add(5*time.Second)) {
 		vrt_Assert(len(reqs) == 0, "re-request sent although the last packet arrived at most 5 s ago")
 		vrt_Cover("within-5s", true)
 		return
 	}
-	if !t0.After(last.Add(5 * time.Second)) {
-		return // the server's own clock read may fall on either side of the threshold
+	if !t0.After(last.Add(5*time.Second)) || !t0.After(lastB.Add(5*time.Second)) {
+		return // the server's own clock read may fall on either side of a threshold
 	}
 	vrt_Cover("after-5s", true)
+	if two {
+		// one exact re-request per pending transfer (compared as a set: map iteration order)
+		vrt_Assert(len(reqs) == 2, "one re-request per pending transfer expected")
+		seenA, seenB := false, false
+		for _, rq := range reqs {
+			var q model.P0x8003
+			vrt_Assert(q.Parse(rq.JTMessage) == nil, "re-request body does not parse as 0x8003")
+			if q.OriginalSerialNumber == gs[0].serial && !seenB {
+				seenB = true
+				vrt_Assert(len(q.AgainPackageList) == 1 && q.AgainPackageList[0] == 2 && q.AgainPackageCount == 1, "re-request of the second transfer does not list exactly its missing packet")
+				continue
+			}
+			vrt_Assert(q.OriginalSerialNumber == fs[0].serial && !seenA, "re-request names an unknown serial")
+			seenA = true
+			cnt := 0
+			for k := 2; k <= n; k++ {
+				if miss[k] {
+					vrt_Assert(cnt < len(q.AgainPackageList) && q.AgainPackageList[cnt] == uint16(k), "re-request of the first transfer does not list exactly its missing packets")
+					cnt++
+				}
+			}
+			vrt_Assert(cnt == len(q.AgainPackageList) && int(q.AgainPackageCount) == cnt, "re-request of the first transfer lists packets of another transfer")
+		}
+		vrt_Cover("two-transfers", true)
+		return
+	}
 	vrt_Assert(len(reqs) == 1, "exactly one re-request expected after more than 5 s of silence")
 	req := reqs[0]
 	// the 0x8003 is addressed like the first packet and names its serial and the missing numbers
